@@ -411,8 +411,8 @@ pub trait Term: std::fmt::Debug {
             TermKind::Literal => {
                 let tag1 = self.language_tag();
                 let tag2 = other.language_tag();
-                if let (Some(tag1), Some(tag2)) = (tag1, tag2) {
-                    tag1.cmp(&tag2).then_with(|| {
+                if let (Some(tag1), Some(tag2)) = (&tag1, &tag2) {
+                    tag1.cmp(tag2).then_with(|| {
                         self.lexical_form()
                             .unwrap()
                             .cmp(&other.lexical_form().unwrap())
@@ -420,11 +420,15 @@ pub trait Term: std::fmt::Debug {
                 } else {
                     let dt1 = self.datatype().unwrap();
                     let dt2 = other.datatype().unwrap();
-                    Ord::cmp(&dt1, &dt2).then_with(|| {
-                        self.lexical_form()
-                            .unwrap()
-                            .cmp(&other.lexical_form().unwrap())
-                    })
+                    Ord::cmp(&dt1, &dt2)
+                        .then_with(|| {
+                            self.lexical_form()
+                                .unwrap()
+                                .cmp(&other.lexical_form().unwrap())
+                        })
+                        // an (ill-typed) rdf:langString literal without a language tag
+                        // must not compare equal to a language-tagged one (Term::eq tells them apart)
+                        .then_with(|| Ord::cmp(&tag1.is_some(), &tag2.is_some()))
                 }
             }
             TermKind::Triple => {
